@@ -5,7 +5,9 @@ R19a radix-64 alphabet and inverse table, CRC-24 constants, line length, armor h
 R19b body-length forms: encoder and decoder against the RFC over all boundary regions,
 R19c iterated-S2K count expression over all 256 count octets,
 R19d scalar / MPI / time codecs: big-endian field agreement,
-R19e armor decoding refuses a wrong checksum."""
+R19e armor decoding refuses a wrong checksum,
+R19f fingerprint framing: v4 = SHA-1 over 0x99 | 2-octet length | body, v5 = SHA-256 over 0x9A |
+     4-octet length | body; key ids are the low 64 bits (v4) / high 64 bits (v5) of the fingerprint."""
 from .. import evalx
 from ..pieceeval import PieceEval
 from ..facts import walk, AnalysisBroken
@@ -43,6 +45,7 @@ def run(ctx):
     r19c(ctx)
     r19d(ctx)
     r19e(ctx)
+    r19f(ctx)
 
 
 def global_value(prog, name):
@@ -280,6 +283,117 @@ EXPLANATION = ("Conformance of the finite parts decided against RFC 4880 tables 
                "table, CRC-24 constants, line length, BEGIN/END strings of encoder and decoder; the body-length encoder and decoder (loop-free "
                "definitions extracted from the source) evaluated piecewise over all boundary regions (0..8999, 2^16, 2^24, 2^31, 2^32-1; all "
                "256 first octets incl. partial lengths; old-format length types); the iterated-S2K count expression over all 256 octets; "
-               "big-endian scalar encoders; the CRC comparison guarding ArmorDecode's accepting exits. Byte-exact conformance of every "
+               "big-endian scalar encoders; the CRC comparison guarding ArmorDecode's accepting exits; the framing of the fingerprint hash input "
+               "(tag octet, length octets, offset, hash algorithm, digest length) and the key-id slice for v4 and v5 keys. Byte-exact conformance of every "
                "emitted packet and agreement with GnuPG are not decided.")
 ASSUMPTIONS = ["RFC 4880 constants as typed in sa/rules/c19.py", "piecewise evaluation interprets unsigned arithmetic with the declared widths"]
+
+
+def r19f(ctx):
+    """fingerprint framing (RFC 4880 12.2, v5 per the crypto-refresh draft the library follows):
+    the header octets written in front of the key material, the offset the material is copied to,
+    the hashed length, the hash algorithm and the digest length are read off the source and
+    evaluated for a set of body lengths"""
+    prog = ctx.prog
+    spec = {
+        'FingerprintCompute': (0x99, 2, 'GCRY_MD_SHA1', 20, (0, 1, 255, 256, 4660, 65535)),
+        'FingerprintComputeV5': (0x9A, 4, 'GCRY_MD_SHA256', 32, (0, 1, 255, 256, 65536, (1 << 24) + 5, (1 << 32) - 1)),
+    }
+    for name, (tagoct, nlen, algo, dlen, sizes) in spec.items():
+        f = prog.fn(CLS + '::' + name, 0)
+        key = 'R19f:' + name
+        inp = f['params'][0]
+        hcall = None
+        for e in walk(f['body']):
+            if e.get('k') == 'call' and e.get('f') == 'gcry_md_hash_buffer':
+                hcall = e
+        if hcall is None or len(hcall['a']) != 4:
+            ctx.note('R19f', key, 'hash input is not built in a buffer handed to gcry_md_hash_buffer any more; framing not evaluated', f)
+            continue
+
+        def strip(x):
+            while isinstance(x, dict) and x.get('k') == 'cast':
+                x = x['e']
+            return x
+        al = strip(hcall['a'][0])
+        buf = strip(hcall['a'][2])
+        problems = []
+        if not (isinstance(al, dict) and al.get('n') == algo):
+            problems.append('hash algorithm is %s, the standard prescribes %s' % (al.get('n', al.get('v')) if isinstance(al, dict) else '?', algo))
+        if not (isinstance(buf, dict) and buf.get('k') == 'var'):
+            ctx.note('R19f', key, 'hash input buffer is not a plain variable; framing not evaluated', f)
+            continue
+        bid = buf['id']
+        consts = {}
+        body_off = None
+        for st in walk(f['body']):
+            if st.get('k') == 'bin' and st.get('op') == '=' and st['a'][0].get('k') == 'idx' and strip(st['a'][0]['a'][0]).get('id') == bid:
+                ie = st['a'][0]['a'][1]
+                rhs = strip(st['a'][1])
+                if ie.get('k') == 'int':
+                    consts[ie['v']] = st['a'][1]
+                elif rhs.get('k') in ('idx', 'opcall') and strip(rhs['a'][0]).get('id') == inp['id']:
+                    # buffer[OFF + i] = in[i]
+                    iv = strip(rhs['a'][1])
+                    if iv.get('k') == 'var':
+                        try:
+                            body_off = evalx.ev(ie, {iv['id']: 0})
+                        except evalx.NotEvaluable:
+                            body_off = None
+        if body_off is None:
+            ctx.note('R19f', key, 'copy of the key material into the hash buffer not recognised; framing not evaluated', f)
+            continue
+
+        for N in sizes:
+            def call(e, env, N=N):
+                if e.get('k') == 'mcall' and e['f'].split('::')[-1] == 'size' and strip(e['o']).get('id') == inp['id']:
+                    return N
+                raise evalx.NotEvaluable('call')
+            try:
+                got = [evalx.ev(consts[k2], {}, call) & 0xFF if k2 in consts else None for k2 in range(body_off)]
+                hl = evalx.ev(hcall['a'][3], {}, call)
+            except evalx.NotEvaluable as ex:
+                problems.append('not evaluable: %s' % ex)
+                break
+            want = [tagoct] + [(N >> (8 * (nlen - 1 - j))) & 0xFF for j in range(nlen)]
+            if got != want:
+                problems.append('for a %d-octet key body the hash input starts with %s, the standard prescribes %s' % (N, got, want))
+                break
+            if hl != N + 1 + nlen:
+                problems.append('for a %d-octet key body %d octets are hashed instead of %d' % (N, hl, N + 1 + nlen))
+                break
+        # digest length handed out
+        outp = f['params'][1]
+        nout = None
+        for st in walk(f['body']):
+            if st.get('k') == 'for' and isinstance(st.get('c'), dict) and st['c'].get('op') == '<' and strip(st['c']['a'][1]).get('k') == 'int':
+                if any(e.get('k') == 'mcall' and e['f'].endswith('push_back') and strip(e['o']).get('id') == outp['id'] for e in walk(st['b'])):
+                    nout = strip(st['c']['a'][1])['v']
+        if nout is not None and nout != dlen:
+            problems.append('%d digest octets are returned, the fingerprint has %d' % (nout, dlen))
+        if problems:
+            ctx.bad('R19f', key, problems[0], f)
+        else:
+            ctx.ok('R19f', key, 'hash input = 0x%02X | %d-octet big-endian length | body, %s, %d octets' % (tagoct, nlen, algo, dlen), f)
+    # key id slices
+    for name, (lo, hi, what) in {'KeyidCompute': (12, 20, 'low 64 bits of the v4 fingerprint'), 'KeyidComputeV5': (0, 8, 'high 64 bits of the v5 fingerprint')}.items():
+        f = prog.fn(CLS + '::' + name, 0)
+        key = 'R19f:' + name
+        rng = None
+        for st in walk(f['body']):
+            if st.get('k') == 'for' and isinstance(st.get('c'), dict) and st['c'].get('op') == '<' and isinstance(st.get('i'), dict) and st['i'].get('k') == 'decl':
+                init = st['i']['v'][0].get('init')
+                b = st['c']['a'][1]
+                while isinstance(b, dict) and b.get('k') == 'cast':
+                    b = b['e']
+                while isinstance(init, dict) and init.get('k') == 'cast':
+                    init = init['e']
+                if isinstance(init, dict) and init.get('k') == 'int' and isinstance(b, dict) and b.get('k') == 'int':
+                    rng = (init['v'], b['v'])
+        if rng is None:
+            ctx.note('R19f', key, 'key-id slice not recognised; not evaluated', f)
+        elif rng == (lo, hi):
+            ctx.ok('R19f', key, 'key id = octets %d..%d of the fingerprint (%s)' % (lo, hi - 1, what), f)
+        else:
+            ctx.bad('R19f', key, 'key id is taken from octets %d..%d of the fingerprint, the standard prescribes %d..%d (%s)' % (rng[0], rng[1] - 1, lo, hi - 1, what), f)
+    ctx.floor('R19f', sum(1 for r in ctx.results if r.rule == 'R19f' and r.status == 'ok'), 4)
